@@ -169,10 +169,11 @@ func refPairs(n *yaml.Node, merged map[*yaml.Node]bool) ([]pair, error) {
 // ---- generator ----
 
 type gen struct {
-	r     *rand.Rand
-	maps  []*yaml.Node // anchored mappings created so far (merge / alias targets)
-	nodes []*yaml.Node // every anchored node created so far
-	uniq  int
+	r       *rand.Rand
+	maps    []*yaml.Node // anchored mappings created so far (merge / alias targets)
+	nodes   []*yaml.Node // every anchored node created so far
+	srcSeqs []*yaml.Node // sequences of merge sources created so far
+	uniq    int
 }
 
 func (g *gen) key() *yaml.Node {
@@ -202,6 +203,34 @@ func (g *gen) value(depth int) *yaml.Node {
 	return scalar(fmt.Sprintf("v%d", g.uniq))
 }
 
+// source: a merge value - an alias to a mapping, a small literal mapping, a sequence of
+// sources (nested up to two levels, anywhere in the sequence), or an alias to an anchored
+// sequence of sources.
+func (g *gen) source(depth int) *yaml.Node {
+	switch c := g.r.Intn(10); {
+	case c < 3 && depth > 0, depth == 2:
+		s := &yaml.Node{Kind: yaml.SequenceNode, Tag: "!!seq"}
+		for j := 1 + g.r.Intn(3); j > 0; j-- {
+			s.Content = append(s.Content, g.source(depth-1))
+		}
+		g.srcSeqs = append(g.srcSeqs, s)
+		return s
+	case c < 5 && len(g.srcSeqs) > 0:
+		return alias(g.srcSeqs[g.r.Intn(len(g.srcSeqs))])
+	case c < 6:
+		m := &yaml.Node{Kind: yaml.MappingNode, Tag: "!!map"}
+		a, b := g.r.Intn(5), g.r.Intn(5)
+		g.uniq++
+		m.Content = append(m.Content, scalar(fmt.Sprintf("k%d", a)), scalar(fmt.Sprintf("v%d", g.uniq)))
+		if b != a {
+			g.uniq++
+			m.Content = append(m.Content, scalar(fmt.Sprintf("k%d", b)), scalar(fmt.Sprintf("v%d", g.uniq)))
+		}
+		return m
+	}
+	return alias(g.maps[g.r.Intn(len(g.maps))])
+}
+
 func (g *gen) mapping(depth int) *yaml.Node {
 	m := &yaml.Node{Kind: yaml.MappingNode, Tag: "!!map"}
 	used := map[string]bool{}
@@ -213,10 +242,7 @@ func (g *gen) mapping(depth int) *yaml.Node {
 			if g.r.Intn(2) == 0 {
 				src = alias(g.maps[g.r.Intn(len(g.maps))])
 			} else {
-				src = &yaml.Node{Kind: yaml.SequenceNode, Tag: "!!seq"}
-				for j := 1 + g.r.Intn(3); j > 0; j-- {
-					src.Content = append(src.Content, alias(g.maps[g.r.Intn(len(g.maps))]))
-				}
+				src = g.source(2)
 			}
 			m.Content = append(m.Content, mergeKey(), src)
 			continue
@@ -263,7 +289,7 @@ func TestC07(t *testing.T) {
 	for i := 0; i < n; i++ {
 		g := &gen{r: r}
 		root := g.mapping(3)
-		mode := i % 5
+		mode := i % 6
 		var back string
 		if mode > 0 && len(g.maps) > 0 {
 			// add a back-edge from a random mapping to itself or an enclosing / other mapping
@@ -282,6 +308,25 @@ func TestC07(t *testing.T) {
 			case 4:
 				back = "key"
 				from.Content = append(from.Content, alias(to), scalar("v"))
+			case 5:
+				// a cycle through merge sequences and aliases only: <<: &s [.., *s, ..] (possibly nested)
+				back = "merge-sequence"
+				sq := &yaml.Node{Kind: yaml.SequenceNode, Tag: "!!seq"}
+				inner := sq
+				if r.Intn(2) == 0 {
+					inner = &yaml.Node{Kind: yaml.SequenceNode, Tag: "!!seq"}
+					sq.Content = append(sq.Content, inner)
+				}
+				inner.Content = append(inner.Content, alias(sq))
+				if r.Intn(2) == 0 {
+					inner.Content = append(inner.Content, alias(to))
+				}
+				if len(g.srcSeqs) > 0 && r.Intn(2) == 0 {
+					other := g.srcSeqs[r.Intn(len(g.srcSeqs))]
+					other.Content = append(other.Content, alias(sq))
+					sq.Content = append(sq.Content, alias(other))
+				}
+				from.Content = append(from.Content, mergeKey(), sq)
 			}
 		}
 		doc := &yaml.Node{Kind: yaml.DocumentNode, Content: []*yaml.Node{root}}
@@ -437,6 +482,28 @@ var docs = []docCase{
 			}
 			return ""
 		}},
+	{name: "nested merge sequence keeps depth-first order", src: "a: &a {k: from-a}\nc: &c {k: from-c, j: 1}\ne:\n  <<: [[*a], *c]\n",
+		check: func(v any) string {
+			if at(v, "e", "k") != "from-a" || at(v, "e", "j") != 1 {
+				return fmt.Sprint("e = ", at(v, "e"))
+			}
+			return ""
+		}},
+	{name: "anchored sequence of sources before a sibling", src: "a: &a {k: from-a}\nc: &c {k: from-c}\nd: &d [*a]\ne:\n  <<: [*d, *c]\n",
+		check: func(v any) string {
+			if at(v, "e", "k") != "from-a" {
+				return fmt.Sprint("e = ", at(v, "e"))
+			}
+			return ""
+		}},
+	{name: "self-referential merge sequence is tolerated", src: "a:\n  k: v\n  <<: &s [*s]\n",
+		check: func(v any) string {
+			if at(v, "a", "k") != "v" {
+				return fmt.Sprint("a = ", at(v, "a"))
+			}
+			return ""
+		}},
+	{name: "nested self-referential merge sequence is tolerated", src: "a:\n  k: v\n  <<: &s [[*s]]\n"},
 	{name: "self-referential value", src: "a: &a\n  b: *a\n", wantErr: true},
 	{name: "nested cycle through a sequence", src: "a: &a\n  x: &b\n    l: [c, *a]\n    m: *b\n", wantErr: true},
 	{name: "self merge is tolerated", src: "a: &a\n  <<: *a\n  k: v\n",
